@@ -82,7 +82,7 @@ type Sched struct {
 	step     int
 	Points   []Point
 	Deadlock bool
-	Blocked  []string // who was blocked on what at the deadlock
+	Blocked  []string       // who was blocked on what at the deadlock
 	BlockedT map[int]string // thread id -> what it was blocked in
 	StepCap  bool
 	Diverged string
@@ -98,11 +98,11 @@ type Sched struct {
 	MaxPoints    int
 	// IdleHook is called when no thread is enabled; it returns true if it made time pass
 	// (fired a timer), in which case enabledness is re-evaluated instead of reporting a deadlock.
-	IdleHook     func() bool
-	epoch        uint64
-	setupCtr     int
-	Switches     int // context switches that happened inside an operation (evidence)
-	mu           sync.Mutex
+	IdleHook func() bool
+	epoch    uint64
+	setupCtr int
+	Switches int // context switches that happened inside an operation (evidence)
+	mu       sync.Mutex
 }
 
 var active atomic.Pointer[Sched]
@@ -549,22 +549,22 @@ func (m *rw) runlock(c Class) {
 
 type RWMutexE struct{ rw }
 
-func (m *RWMutexE) Lock()    { m.lock(ClassEnv) }
-func (m *RWMutexE) Unlock()  { m.unlock(ClassEnv) }
-func (m *RWMutexE) RLock()   { m.rlock(ClassEnv) }
-func (m *RWMutexE) RUnlock() { m.runlock(ClassEnv) }
-func (m *RWMutexE) TryLock() bool  { m.lock(ClassEnv); return true }
-func (m *RWMutexE) TryRLock() bool { m.rlock(ClassEnv); return true }
+func (m *RWMutexE) Lock()                { m.lock(ClassEnv) }
+func (m *RWMutexE) Unlock()              { m.unlock(ClassEnv) }
+func (m *RWMutexE) RLock()               { m.rlock(ClassEnv) }
+func (m *RWMutexE) RUnlock()             { m.runlock(ClassEnv) }
+func (m *RWMutexE) TryLock() bool        { m.lock(ClassEnv); return true }
+func (m *RWMutexE) TryRLock() bool       { m.rlock(ClassEnv); return true }
 func (m *RWMutexE) RLocker() sync.Locker { return rlocker{&m.rw, ClassEnv} }
 
 type RWMutexA struct{ rw }
 
-func (m *RWMutexA) Lock()    { m.lock(ClassAtom) }
-func (m *RWMutexA) Unlock()  { m.unlock(ClassAtom) }
-func (m *RWMutexA) RLock()   { m.rlock(ClassAtom) }
-func (m *RWMutexA) RUnlock() { m.runlock(ClassAtom) }
-func (m *RWMutexA) TryLock() bool  { m.lock(ClassAtom); return true }
-func (m *RWMutexA) TryRLock() bool { m.rlock(ClassAtom); return true }
+func (m *RWMutexA) Lock()                { m.lock(ClassAtom) }
+func (m *RWMutexA) Unlock()              { m.unlock(ClassAtom) }
+func (m *RWMutexA) RLock()               { m.rlock(ClassAtom) }
+func (m *RWMutexA) RUnlock()             { m.runlock(ClassAtom) }
+func (m *RWMutexA) TryLock() bool        { m.lock(ClassAtom); return true }
+func (m *RWMutexA) TryRLock() bool       { m.rlock(ClassAtom); return true }
 func (m *RWMutexA) RLocker() sync.Locker { return rlocker{&m.rw, ClassAtom} }
 
 type rlocker struct {
